@@ -12,6 +12,7 @@ import SradModel.Drv.Derive
 import SradModel.Drv.HostLoop
 import SradModel.Drv.HostLoopLts
 import SradModel.Drv.HostQ
+import SradModel.Drv.Rumqtt
 import SradModel.Drv.Topic
 import SradModel.Drv.Eon
 import SradModel.Drv.Metric
@@ -30,6 +31,7 @@ structure DState where
   hostloop : HLState := {}
   hll : HllD := {}
   hostq : HostQD := {}
+  rumqtt : RuD := {}
   eon : EonD := {}
   birth : BWorld := {}
   cmd : CmdSt := {}
@@ -60,6 +62,9 @@ def step (st : DState) (line : String) : DState × String :=
   | "eon" :: rest =>
     let (e, o) := stepEon st.eon rest
     ({ st with eon := e }, o)
+  | "rumqtt" :: rest =>
+    let (r, o) := stepRumqtt st.rumqtt rest
+    ({ st with rumqtt := r }, o)
   | "hostq" :: rest =>
     let (h, o) := stepHostQ st.hostq rest
     ({ st with hostq := h }, o)
